@@ -70,6 +70,7 @@ type agg struct {
 	samples    int
 	seenSig    map[string]bool
 	errClasses map[string]int
+	recheck    []json.RawMessage
 }
 
 type candidate struct {
@@ -179,6 +180,47 @@ func (a *agg) violate(sig, detail string, w func() map[string]any) {
 	a.c.Violate(sig, detail, w())
 }
 
+func hasLiar(bin []byte) bool {
+	_, ok := FindLiar(bin)
+	return ok
+}
+
+// rechecks decides the inputs whose child died of memory exhaustion during a compile
+// although nothing in them declares a huge size: each one alone in a fresh child.
+func (a *agg) rechecks(env []string) {
+	if len(a.recheck) == 0 {
+		return
+	}
+	res := core.RunCases(a.c, "recheck", a.recheck, core.ChildOpts{Batch: 1, TimeoutS: 600, RlimitAS: rlimitAS, Env: env})
+	for i, r := range res {
+		cs := a.recheck[i]
+		var ic inCase
+		json.Unmarshal(cs, &ic)
+		bin, ops, _ := buildInput(&ic, a.seeds)
+		if r.Crash != nil {
+			log := readTail(r.Crash.Log, 1<<20)
+			if bytes.Contains(log, []byte("out of memory")) || bytes.Contains(log, []byte("cannot allocate memory")) || reAbort.Match(log) {
+				a.allocViolation(cs, bin, ops, "", "alone in a fresh child the compile again exhausts memory: "+r.Crash.Detail, "alloc-site:"+allocSite(log))
+			} else {
+				a.c.Inconclusive("compile-oom-recheck-undecided")
+			}
+			continue
+		}
+		var o outCase
+		json.Unmarshal(r.Out, &o)
+		confirmed := false
+		for _, f := range o.Findings {
+			if f.Sig == "ALLOC" {
+				a.allocViolation(cs, bin, ops, f.Combo, f.Detail, f.Err)
+				confirmed = true
+			}
+		}
+		if !confirmed {
+			a.c.Inconclusive("compile-oom-not-reproduced-in-isolation")
+		}
+	}
+}
+
 func (a *agg) allocViolation(cs json.RawMessage, bin []byte, ops []string, combo, detail, errText string) {
 	class, val, why := classify(bin, ops, errText)
 	a.c.Count("alloc_violations", 1)
@@ -253,6 +295,12 @@ func (a *agg) crash(cs json.RawMessage, cr *core.Crash) {
 		}
 	case cr.Kind == "timeout":
 		c.Inconclusive("batch-watchdog")
+	case oom && phase == "compile" && !hasLiar(bin):
+		// nothing in the input explains a huge allocation: the child may have run out of
+		// address space because of what earlier cases of its batch left behind; decide the
+		// input alone in a fresh child
+		a.recheck = append(a.recheck, cs)
+		c.Count("compile_oom_rechecked_in_isolation", 1)
 	case oom && phase == "compile":
 		a.allocViolation(cs, bin, ops, combo, fmt.Sprintf("child died during the compile with RLIMIT_AS=%d: %s", uint64(rlimitAS), cr.Detail), "alloc-site:"+allocSite(log))
 	case oom && phase == "exec":
@@ -630,6 +678,7 @@ func run(c *core.Ctx) int {
 		}
 	}
 
+	a.rechecks(envB)
 	lap("phase B (mutants)")
 	// ---- differential watchdog: one probe per class and engine
 	a.probes(envB, accSeeds)
